@@ -754,7 +754,7 @@ META = {
     "explanation": "Every member of every operation input structure is traced (backward slice over MIR) from the field of the constructed "
                    "XInput value to the http::de helper call that reads it; helper, wire name constant, timestamp format, requiredness "
                    "and Rust type kind are compared with the Smithy model. Helper bodies are checked for single-valuedness and the buffered "
-                   "body length check. Decides the binding structure, not text->value conversions.",
+                   "body length check. Decides the binding structure, not text->value conversions. Also: what extract_full_body returns was read from the request body to its end; prerequisites borrowed from C13 (R4, R6, R7) and C12 (R7).",
     "not_decided": ["value-level text conversions inside FromStr/TryFromHeaderValue other than the integer parse discipline (R7)",
                     "aws-sdk's own encoders", "streamed body bytes (C08/C09)"],
     "assumptions": ["rustc nightly MIR construction", "data/s3.json is the binding oracle (deviation table in s3sv/model.py)",
